@@ -26,25 +26,45 @@ def _run(cmd, timeout):
     return out, err, int((time.time() - t) * 1000)
 
 
-def solve_file(path, timeout, backends=('z3', 'cvc5')):
-    """returns (verdict, backend, ms, log)  verdict in unsat | sat | unknown"""
-    log = []
-    total = 0
-    verdict = 'unknown'; used = None
-    for b in backends:
-        if b == 'z3': cmd = [Z3_NEW, '-T:%d' % timeout, 'smt.random_seed=1', path]
-        elif b == 'cvc5': cmd = [CVC5, '--tlimit=%d' % (timeout * 1000), '--full-saturate-quant', path]
-        elif b == 'cvc5-enum': cmd = [CVC5, '--tlimit=%d' % (timeout * 1000), '--enum-inst', path]
-        else: cmd = [Z3_OLD, '-T:%d' % timeout, path]
-        out, err, ms = _run(cmd, timeout)
-        total += ms
-        log.append('%s:%s(%dms)%s' % (b, out or 'error', ms, (' ' + err) if err and out not in ('unsat', 'sat') else ''))
-        if out == 'unsat': return 'unsat', b, total, ' '.join(log)
-        if out == 'sat' and verdict != 'sat': verdict, used = 'sat', b
-    return verdict, used, total, ' '.join(log)
+def _cmd(b, path, timeout):
+    if b == 'z3': return [Z3_NEW, '-T:%d' % timeout, 'smt.random_seed=1', path]
+    if b == 'z3e': return [Z3_NEW, '-T:%d' % timeout, 'smt.auto_config=false', 'smt.mbqi=false', 'smt.random_seed=1', path]   # E-matching only
+    if b == 'cvc5': return [CVC5, '--tlimit=%d' % (timeout * 1000), '--full-saturate-quant', path]
+    if b == 'cvc5-enum': return [CVC5, '--tlimit=%d' % (timeout * 1000), '--enum-inst', path]
+    return [Z3_OLD, '-T:%d' % timeout, path]
 
 
-def discharge(obls, theory_axioms, timeout=10, jobs=16, keep_dir=None, backends=('z3', 'cvc5')):
+def solve_file(path, timeout, backends=('z3e', 'z3', 'cvc5')):
+    """portfolio: all back ends start at once on the same file, the first `unsat` wins and the others are killed.
+    returns (verdict, backend, ms, log)  verdict in unsat | sat | unknown"""
+    t0 = time.time()
+    procs = {b: subprocess.Popen(_cmd(b, path, timeout), stdout=subprocess.PIPE, stderr=subprocess.PIPE, text=True) for b in backends}
+    done = {}; verdict, used = 'unknown', None
+    deadline = t0 + timeout + 5
+    try:
+        while procs and time.time() < deadline:
+            for b, pr in list(procs.items()):
+                if pr.poll() is not None:
+                    out = (pr.stdout.read().strip().split('\n') or [''])[0].strip()
+                    done[b] = (out or 'error', int((time.time() - t0) * 1000))
+                    del procs[b]
+                    if out == 'unsat':
+                        verdict, used = 'unsat', b; raise StopIteration
+                    if out == 'sat' and verdict != 'sat': verdict, used = 'sat', b
+            time.sleep(0.01)
+    except StopIteration:
+        pass
+    finally:
+        for b, pr in procs.items():
+            try: pr.kill(); pr.wait(timeout=2)
+            except Exception: pass
+            done.setdefault(b, ('killed' if verdict == 'unsat' else 'timeout', int((time.time() - t0) * 1000)))
+    ms = int((time.time() - t0) * 1000)
+    log = ' '.join('%s:%s(%dms)' % (b, done[b][0], done[b][1]) for b in backends if b in done)
+    return verdict, used, ms, log
+
+
+def discharge(obls, theory_axioms, timeout=10, jobs=16, keep_dir=None, backends=('z3e', 'z3', 'cvc5')):
     d = tempfile.mkdtemp(prefix='gvc-smt-')
     try:
         files = []
@@ -61,7 +81,7 @@ def discharge(obls, theory_axioms, timeout=10, jobs=16, keep_dir=None, backends=
             if keep_dir and ((o.kind != 'canary' and v != 'unsat') or (o.kind == 'canary' and v == 'unsat')):
                 os.makedirs(keep_dir, exist_ok=True)
                 shutil.copy(files[i], os.path.join(keep_dir, o.id.replace('/', '__').replace(':', '_') + '.smt2'))
-        with ThreadPoolExecutor(max_workers=jobs) as ex:
+        with ThreadPoolExecutor(max_workers=max(2, jobs // 2)) as ex:
             list(ex.map(work, range(len(obls))))
     finally:
         shutil.rmtree(d, ignore_errors=True)
